@@ -76,7 +76,7 @@ package main
 //@   call http.Handler.ServeHTTP requires [C19] names-tile-headers: tile.L == -2 ==> gHdr["Content-Encoding"] == "gzip" && gHdr["Content-Type"] == "application/jsonl; charset=utf-8"
 //@   call http.Handler.ServeHTTP requires [C19] hash-tile-headers: (tile.L != -1 && tile.L != -2) ==> gHdr["Content-Encoding"] == old(gHdr)["Content-Encoding"] && gHdr["Content-Type"] == "application/octet-stream"
 //@   call http.Handler.ServeHTTP requires [C19] tile-cache-policy: gHdr["Cache-Control"] == "public, max-age=604800, immutable"
-//@   call http.Handler.ServeHTTP requires [C19] tile-parsed-from-path: tilePath == "tile/" + pathValueOf(r, "tile")
+//@   call http.Handler.ServeHTTP requires [C19] tile-parsed-from-path: tilePath == "tile/" + pathValueOf(old(r), "tile")
 //@ pure func pathValueOf(r Ref, name string) string
 //@ assume func http.(*Request).PathValue params name
 //@   ensures ret == pathValueOf(recv, name)
